@@ -10,8 +10,9 @@ CFG = {'assumptions': ['f64 inputs cross the boundary as bit patterns and are de
                  'symmetric, zero exactly between equal points) and, for piece lengths, LenLerp (homogeneous along a '
                  'segment); the Euclidean length satisfies both but is rational only on axis-aligned / Pythagorean '
                  'segments'],
+ 'translator': True,
  'count': {'quick': 120000, 'thorough': 5000000},
- 'lean_files': ['GeoModel/Interp.lean', 'GeoModel/Ops/C15.lean', 'GeoProofs/Lemmas/C15.lean',
+ 'lean_files': ['GeoModel/Gen/InterpGen.lean', 'GeoModel/Interp.lean', 'GeoModel/Ops/C15.lean', 'GeoProofs/Lemmas/C15.lean',
                 'GeoProofs/Lemmas/C15PSimple.lean', 'GeoProofs/Lemmas/C15POn.lean',
                 'GeoProofs/Lemmas/C15PDensify.lean'],
  'rule': 'random Lines and LineStrings (0-6 vertices; axis-aligned / Pythagorean steps with rational lengths, '
